@@ -131,6 +131,10 @@ func init() {
 				panic(pathEnd{kind: "assume"})
 			}
 		case *Term:
+			if m.replaying() {
+				m.addPC(c)
+				return nil
+			}
 			if m.model == nil || !m.evalBool(c) {
 				r, model := m.query(c, true)
 				if r == Unsat {
